@@ -19,7 +19,7 @@ from .common import muted, rng, stable_hash, boundary_values
 
 LEVEL = 'exploration'
 RULE = ('a case is one recording: a generated design plan (1-7 wires of width 1-64 driven by Wire.put pokes between clk() '
-        'calls, py4hw.Sequence blocks, Counter, Buf and Reg copies; in 30% one or two extra clock domains -- ungated, or gated by a poked / Sequence-driven 1-bit wire that really closes -- instantiated before or after the recorder domain, each with its own Sequence and a share of the clocked blocks; in 25% a Sequence/Reg leaf next to the recorder carries its own (mostly gated) ClockDriver and is often the first clockable of that block; a watch list of 1-10 entries mixing Wire, InPort and OutPort '
+        'calls, py4hw.Sequence blocks, Counter, Buf and Reg copies; in 30% one or two extra clock domains -- ungated, or gated by a poked / Sequence-driven 1-bit wire that really closes -- instantiated before or after the recorder domain, each with its own Sequence and a share of the clocked blocks; 1-bit stimulus partly written as Python bools; in 15% the parent of the recorder is a primitive (a Buf) instead of the system / a structural block; in 25% a Sequence/Reg leaf next to the recorder carries its own (mostly gated) ClockDriver and is often the first clockable of that block; a watch list of 1-10 entries mixing Wire, InPort and OutPort '
         'objects with duplicates and port+wire aliases and, in 30%, FieldInspector / ValueFormatter rows at any position; in 25% the recorder is attached after the simulator exists (warm-up cycles and/or a Scope) and the simulator refreshed with getSimulator(); a random order of the leaves around probe-before < Waveform < probe-after) '
         '(wires may share a short name across two scopes) plus a step list (clk(n) calls with n in 0..40, pokes, clear(), checkpoints) totalling 0-200 cycles; value histories are '
         'built from small per-wire pools with forced run lengths 1-9 so that values repeat and return. Every checkpoint compares '
@@ -289,10 +289,16 @@ def gen_plan(rnd):
                 st['tag'] = rnd.choice(tpool)
     # creation history: the recorder is attached to a system whose simulator already exists (created explicitly and run for a
     # few cycles, and/or created by a py4hw.Scope), then the simulator is refreshed with HWSystem.getSimulator()
+    # stimulus written as Python bools (comparison results, True/False constants) on 1-bit wires
+    for sp in wires:
+        if sp['width'] == 1 and sp['kind'] in ('poke', 'seq') and rnd.random() < 0.3:
+            sp['asbool'] = True
+    # parent of the recorder: the system / a structural block (default) or a primitive (a Buf leaf)
+    wfparent = 'primitive' if rnd.random() < 0.15 else None
     attach = None
     if rnd.random() < 0.25:
         attach = dict(warm=rnd.choice([0, 1, 2, 5]), scope=rnd.random() < 0.4)
-    return dict(wires=wires, watch=watch, layout=layout, nest=nest, steps=steps, domains=domains, attach=attach)
+    return dict(wires=wires, watch=watch, layout=layout, nest=nest, steps=steps, domains=domains, attach=attach, wfparent=wfparent)
 
 
 # --------------------------------------------------------------------------- execution + judgement
@@ -389,7 +395,7 @@ def run_plan(plan, stats=None):
             par = doms[s['dom']]
             in_dom.add(nm)
         if k == 'seq':
-            blocks[nm] = py4hw.Sequence(par, nm, list(s['values']), ws[i], once=bool(s.get('once')))
+            blocks[nm] = py4hw.Sequence(par, nm, [bool(v) for v in s['values']] if s.get('asbool') else list(s['values']), ws[i], once=bool(s.get('once')))
         elif k == 'buf':
             blocks[nm] = py4hw.Buf(top, nm, ws[s['src']], ws[i])
         elif k == 'not':
@@ -441,13 +447,16 @@ def run_plan(plan, stats=None):
         pb.reset()
         pa.reset()
         pb.calls = pa.calls = 0
+    host = None
+    if plan.get('wfparent') == 'primitive':
+        host = py4hw.Buf(top, 'wfhost', ws[0], top.wire('wfhost_r', specs[0]['width']))
     try:
-        wf = py4hw.Waveform(top, 'wf', list(objs))
+        wf = py4hw.Waveform(host if host is not None else top, 'wf', list(objs))
     except Exception as ex:
         raise Bad('raises', dict(stage='construct'), observed=repr(ex)[:200], what='Waveform(...) raises %r' % (ex,))
     if pa is None:
         pa = Probe(top, 'pa', ws, 'q_')
-    every = dict(blocks, pb=pb, wf=wf, pa=pa)
+    every = dict(blocks, pb=pb, wf=(host if host is not None else wf), pa=pa)
     order_ = {k: every[k] for k in plan['layout'] if k not in in_dom}               # the planned visiting order of the leaves
     for k, v in top.children.items():
         if k not in order_:
@@ -499,7 +508,7 @@ def run_plan(plan, stats=None):
         op = st['op']
         if op == 'clk':
             for i, v in st['pokes']:
-                ws[i].put(v)
+                ws[i].put((v > 0) if specs[i].get('asbool') else v)
                 poked[i] = v
             if 'tag' in st:
                 side.tag = st['tag']
@@ -677,6 +686,10 @@ def _features(plan):
                 clocked = [x for x in lay_ if x in ('pb', 'wf', 'pa') or plan['wires'][int(x[1:])]['kind'] in ('seq', 'reg', 'counter')]
                 if clocked and clocked[0] == 'd%d' % i:
                     f.add('leaf_with_own_gated_driver_is_first_clockable_of_recorder_block')
+    if plan.get('wfparent'):
+        f.add('recorder_under_a_primitive')
+    if any(sp.get('asbool') and any(e['wire'] == i for e in allw) for i, sp in enumerate(plan['wires'])):
+        f.add('watched_1bit_wire_written_with_bools')
     if plan.get('attach'):
         f.add('late_attach')
         f.add('late_attach_after_scope' if plan['attach']['scope'] else 'late_attach_after_warmup')
@@ -765,7 +778,8 @@ def run_check(run, tier, seed, shard):
     if shard is None:
         for need in ('duplicate_entry', 'port_wire_alias', 'clear', 'zero_cycles', 'late_attach', 'inspector_between',
                  'gated_domain_instantiated_before_recorder_domain', 'gated_domain_instantiated_after_recorder_domain', 'two_gated_domains',
-                 'leaf_with_own_gated_driver_is_first_clockable_of_recorder_block'):
+                 'leaf_with_own_gated_driver_is_first_clockable_of_recorder_block',
+                 'recorder_under_a_primitive', 'watched_1bit_wire_written_with_bools'):
             if not feats.get(need):
                 run.inconclusive.append('no recording with %s' % need)
 
@@ -774,7 +788,8 @@ def post_merge(run, tier, seed):
     feats = run.extra.get('recordings_with', {})
     for need in ('duplicate_entry', 'port_wire_alias', 'clear', 'zero_cycles', 'late_attach', 'inspector_between',
                  'gated_domain_instantiated_before_recorder_domain', 'gated_domain_instantiated_after_recorder_domain', 'two_gated_domains',
-                 'leaf_with_own_gated_driver_is_first_clockable_of_recorder_block'):
+                 'leaf_with_own_gated_driver_is_first_clockable_of_recorder_block',
+                 'recorder_under_a_primitive', 'watched_1bit_wire_written_with_bools'):
         if not feats.get(need):
             run.inconclusive.append('no recording with %s' % need)
     for need in ('lanes_decoded', 'checkpoints', 'cycles'):
